@@ -224,6 +224,46 @@ func extractLayout(w *World, fn *ssa.Function, buf ssa.Value, encode bool, depth
 			if onBuf(args[0]) {
 				return []wireOp{{Kind: "blob", In: in}}, true
 			}
+		case buf == nil && (f.Name() == "Encode" || f.Name() == "Decode") && f.Pkg() != nil && strings.HasSuffix(f.Pkg().Path(), "/util/enc") && (f.Name() == "Encode") == encode:
+			// the payload handed to / taken from the codec without a bytes.Buffer in between is one blob
+			if encode {
+				arg := args[len(args)-1]
+				for _, root := range provenance(arg, provOpts{}) {
+					if rc, ok := root.(*ssa.Call); ok && isMethod(sCallee(rc), "bytes", "Buffer", "Bytes") {
+						return nil, false
+					}
+				}
+				return payloadOps(arg, in, 0), true
+			}
+			var res ssa.Value
+			for _, ref := range *c.Referrers() {
+				if ex, ok := ref.(*ssa.Extract); ok && ex.Index == 0 {
+					res = ex
+				}
+			}
+			if res == nil {
+				return nil, false
+			}
+			wrapped := false
+			allInstrs(fn, func(in2 ssa.Instruction) {
+				c2, ok := in2.(*ssa.Call)
+				if !ok {
+					return
+				}
+				if f2 := sCallee(c2); f2 != nil && f2.Pkg() != nil && f2.Pkg().Path() == "bytes" && strings.HasPrefix(f2.Name(), "New") {
+					for _, a := range c2.Call.Args {
+						for _, root := range provenance(a, provOpts{}) {
+							if root == res {
+								wrapped = true
+							}
+						}
+					}
+				}
+			})
+			if wrapped {
+				return nil, false
+			}
+			return []wireOp{{Kind: "blob", In: in}}, true
 		default:
 			// helper taking the buffer
 			if sc := c.Call.StaticCallee(); sc != nil && inModule(sc) {
@@ -441,4 +481,53 @@ func sortedKeys(m map[string]bool) []string {
 	}
 	sort.Strings(out)
 	return out
+}
+
+// payloadOps decomposes a payload slice built without a buffer: append(<literal bytes>, rest...) is the
+// literal's bytes followed by the rest; anything else is one blob.
+func payloadOps(v ssa.Value, in ssa.Instruction, depth int) []wireOp {
+	if depth < 4 {
+		if c, ok := v.(*ssa.Call); ok {
+			if b, ok := c.Call.Value.(*ssa.Builtin); ok && b.Name() == "append" && len(c.Call.Args) == 2 {
+				return append(payloadOps(c.Call.Args[0], in, depth+1), payloadOps(c.Call.Args[1], in, depth+1)...)
+			}
+		}
+		if sl, ok := v.(*ssa.Slice); ok {
+			if al, ok := sl.X.(*ssa.Alloc); ok {
+				if pt, ok := al.Type().Underlying().(*types.Pointer); ok {
+					if at, ok := pt.Elem().Underlying().(*types.Array); ok && typeSize(at.Elem()) == 1 && al.Referrers() != nil {
+						ops := make([]wireOp, at.Len())
+						for i := range ops {
+							ops[i] = wireOp{Kind: "u8", Size: 1, In: in}
+						}
+						for _, ref := range *al.Referrers() {
+							ia, ok := ref.(*ssa.IndexAddr)
+							if !ok {
+								continue
+							}
+							idx, isC := constIntVal(ia.Index)
+							if !isC || idx < 0 || idx >= int64(len(ops)) || ia.Referrers() == nil {
+								continue
+							}
+							for _, r2 := range *ia.Referrers() {
+								if st, ok := r2.(*ssa.Store); ok {
+									if cv, ok := constIntVal(st.Val); ok {
+										c2 := cv
+										ops[idx].Const = &c2
+									} else {
+										ops[idx].Val = st.Val
+									}
+								}
+							}
+						}
+						return ops
+					}
+				}
+			}
+		}
+		if cst, ok := v.(*ssa.Const); ok && cst.Value == nil {
+			return nil // append(nil, ...)
+		}
+	}
+	return []wireOp{{Kind: "blob", Field: fieldPathOf(v), In: in}}
 }
